@@ -229,6 +229,22 @@ def eval_case(case):
                 fail('decoder_parameters', f'{a[3]} built with {got}, requested one of {want_list[:3]}')
                 break
             want_list.remove(hit)
+    # a decoder made of other decoders hands its own settings down to them
+    from panqec.decoders import BaseDecoder
+    for sim in sims:
+        top = sim.decoder
+        for attr, sub in vars(top).items():
+            if not isinstance(sub, BaseDecoder):
+                continue
+            if sub.code is not top.code or float(sub.error_rate) != float(top.error_rate):
+                fail('component_decoder_settings',
+                     f'{type(top).__name__}.{attr}: built for another code / error rate '
+                     f'({sub.error_rate!r} vs {top.error_rate!r})')
+            for key, val in top.params.items():
+                if key in sub.params and sub.params[key] != val:
+                    fail('component_decoder_settings',
+                         f'{type(top).__name__}(..., {key}={val!r}) built its {attr} '
+                         f'({type(sub).__name__}) with {key}={sub.params[key]!r}')
     # expand_input_ranges / get_runs agree in size
     if 'ranges' in spec and not isinstance(spec['ranges'], list):
         n_exp = len(expand_input_ranges(json.loads(json.dumps(spec['ranges']))))
@@ -322,7 +338,7 @@ def decoder_block(draw, cls, in_runs):
                                         {'max_bp_iter': 1000, 'osd_order': 10},
                                         {'channel_update': True}, {'osd_order': 3}],
         'MatchingDecoder': [{'error_type': 'X'}, {'error_type': 'Z'}, {'error_type': None}],
-        'RotatedSweepMatchDecoder': [{'max_rounds': 4}, {'max_rounds': 8}],
+        'RotatedSweepMatchDecoder': [{'max_rounds': 4}, {'max_rounds': 8}, {'max_rounds': 1}],
         'MemoryBeliefPropagationDecoder': [{'max_bp_iter': 2}, {'max_bp_iter': 3, 'alpha': 0.5}],
     }.get(name, [])
     form = draw(st.sampled_from(['absent', 'empty', 'dict', 'list'] if not in_runs
